@@ -127,6 +127,10 @@ func (c *sqlQueryChecker) typeHasExecMethodRec(typ types.Type, seen map[*types.N
 	switch typ := typ.(type) {
 	case *types.Struct:
 		for i := 0; i < typ.NumFields(); i++ {
+			if !typ.Field(i).Embedded() {
+				// Only embedded fields promote their methods.
+				continue
+			}
 			if c.typeHasExecMethodRec(typ.Field(i).Type(), seen) {
 				return true
 			}
